@@ -281,6 +281,7 @@ func c15BatchWorld(rc *RunCtx) {
 			if err := os.WriteFile(tf.path, init, 0o644); err != nil {
 				panic(err)
 			}
+			s.RegisterCreate(tf.path, false)
 			tf.exists, tf.size, tf.incarn = true, int64(len(init)), 1
 			if !w.tail {
 				tf.expected = append(tf.expected, init...)
@@ -365,6 +366,7 @@ func c15BatchWorld(rc *RunCtx) {
 					// from here on the stream may end (and deliver an unterminated last line)
 					tf.streamOver = true
 				}
+				s.RegisterRemove(tf.path)
 				if err := os.Remove(tf.path); err != nil {
 					panic(err)
 				}
@@ -384,7 +386,11 @@ func c15BatchWorld(rc *RunCtx) {
 				tf.size = 0
 				tf.incarn++
 				_, tf.opensAtNew = w.pos(tf.path)
-				w.opf("%s: re-create", tf.path)
+				if c15Recreated(rc, s, tf.path) {
+					w.opf("%s: re-create (the file system reuses the inode number of the removed file)", tf.path)
+				} else {
+					w.opf("%s: re-create", tf.path)
+				}
 				fsnotify.SimNotify(tf.path, fsnotify.Create)
 				if tf.streamOver {
 					continue
